@@ -1,2 +1,16 @@
 """C02 - payload framing."""
 FUNCTIONS = ['payload.Payload.__init__', 'payload.Payload.encode', 'payload.Payload.decode']
+LEVEL_TEXT = ('Payload.encode is verified against the recursive spec function payload_text (joined '
+              'text-channel encodings, single U+001E separators) by a loop invariant; Payload.decode / '
+              '__init__ against: over-limit bodies raise before any packet is built, every failure '
+              'leaves packets == [], success gives packet k == dec(part k) for every k (comprehension '
+              'invariant); all inputs, all lengths')
+LEVEL_NOTE = ('assumed: str.split contract (parts are separator-free and join back to the input), '
+              'parse_qs returns a dict of non-empty string lists, callee contracts of Packet (C01); '
+              'termination: decode is loop-free apart from a comprehension over a finite list')
+ASSUMPTIONS = ['str.split library contract', 'urllib.parse.parse_qs library contract',
+               'max_decode_packets is the class default 16 (the contract text names the literal)',
+               'exact ValueError conditions of single packets are stated in C01; here ValueError from a '
+               'packet is a may-raise whose exceptional exit is proved to leave packets == []']
+NOT_DECIDED = ['split(join(xs)) == xs for separator-free xs is the assumed str.split contract, not derived',
+               "the form-encoded 'd=' variant is proved relative to the parse_qs contract only"]
